@@ -51,6 +51,7 @@ from .ast_nodes import (
 )
 from .opcodes import OpCode
 from .values import UNDEFINED
+from .errors import JSError, JSSyntaxError
 
 
 @dataclass
@@ -574,7 +575,7 @@ class Compiler:
                 self._emit(OpCode.SET_PROP)
                 self._emit(OpCode.POP)  # Pop the result of SET_PROP
             else:
-                raise NotImplementedError(
+                raise JSSyntaxError(
                     f"Unsupported for-in left: {type(node.left).__name__}"
                 )
 
@@ -626,7 +627,7 @@ class Compiler:
                     self._emit(OpCode.STORE_NAME, idx)
                 self._emit(OpCode.POP)
             else:
-                raise NotImplementedError(
+                raise JSSyntaxError(
                     f"Unsupported for-of left: {type(node.left).__name__}"
                 )
 
@@ -646,7 +647,7 @@ class Compiler:
 
         elif isinstance(node, BreakStatement):
             if not self.loop_stack:
-                raise SyntaxError("'break' outside of loop")
+                raise JSSyntaxError("'break' outside of loop")
 
             # Find the right loop context (labeled or innermost loop/switch)
             target_label = node.label.name if node.label else None
@@ -667,9 +668,9 @@ class Compiler:
 
             if ctx is None:
                 if target_label:
-                    raise SyntaxError(f"label '{target_label}' not found")
+                    raise JSSyntaxError(f"label '{target_label}' not found")
                 else:
-                    raise SyntaxError("'break' outside of loop")
+                    raise JSSyntaxError("'break' outside of loop")
 
             # Emit pending finally blocks before the break
             self._emit_pending_finally_blocks()
@@ -679,7 +680,7 @@ class Compiler:
 
         elif isinstance(node, ContinueStatement):
             if not self.loop_stack:
-                raise SyntaxError("'continue' outside of loop")
+                raise JSSyntaxError("'continue' outside of loop")
 
             # Find the right loop context (labeled or innermost loop, not switch)
             target_label = node.label.name if node.label else None
@@ -693,7 +694,7 @@ class Compiler:
                     break
 
             if ctx is None:
-                raise SyntaxError(f"label '{target_label}' not found")
+                raise JSSyntaxError(f"label '{target_label}' not found")
 
             # Emit pending finally blocks before the continue
             self._emit_pending_finally_blocks()
@@ -849,7 +850,7 @@ class Compiler:
             self.loop_stack.pop()
 
         else:
-            raise NotImplementedError(
+            raise JSSyntaxError(
                 f"Cannot compile statement: {type(node).__name__}"
             )
 
@@ -1280,7 +1281,7 @@ class Compiler:
                 if node.operator in op_map:
                     self._emit(op_map[node.operator])
                 else:
-                    raise NotImplementedError(f"Unary operator: {node.operator}")
+                    raise JSSyntaxError(f"Unary operator: {node.operator}")
 
         elif isinstance(node, UpdateExpression):
             # ++x or x++
@@ -1388,7 +1389,7 @@ class Compiler:
                     self._emit(OpCode.SET_PROP)  # [old_value, new_value]
                     self._emit(OpCode.POP)  # [old_value]
             else:
-                raise NotImplementedError("Update expression on non-identifier")
+                raise JSSyntaxError("Update expression on non-identifier")
 
         elif isinstance(node, BinaryExpression):
             self._compile_expression(node.left)
@@ -1420,7 +1421,7 @@ class Compiler:
             if node.operator in op_map:
                 self._emit(op_map[node.operator])
             else:
-                raise NotImplementedError(f"Binary operator: {node.operator}")
+                raise JSSyntaxError(f"Binary operator: {node.operator}")
 
         elif isinstance(node, LogicalExpression):
             self._compile_expression(node.left)
@@ -1592,6 +1593,6 @@ class Compiler:
             self._emit(OpCode.MAKE_CLOSURE, func_idx)
 
         else:
-            raise NotImplementedError(
+            raise JSSyntaxError(
                 f"Cannot compile expression: {type(node).__name__}"
             )
